@@ -341,7 +341,9 @@ def r4_encoders(ctx):
     q = [e for e in ev.events if e.callee == ('name', 'urllib.parse.quote') and e.func is pr]
     ctx.floor('C16.R4', 'quote() of the path', len(q))
     for e in q:
-        ok = e.args == (('param', 'canonical_uri'),) and not e.kwargs
+        pparams = [a.arg for a in pr.node.args.posonlyargs + pr.node.args.args]
+        path_param = pparams[2] if len(pparams) > 2 else 'canonical_uri'  # (self, method, <path>, ...)
+        ok = e.args == (('param', path_param),) and not e.kwargs
         ctx.check(ok, 'C16.R4', f'{func_label(pr)}|path-encoder', e.loc, "path: urllib.parse.quote(canonical_uri) applied once, '/' left unescaped", f'path encoder changed: quote{[show(a) for a in e.args]} {dict(e.kwargs)}')
     u = [e for e in ev.events if e.callee == ('name', 'urllib.parse.urlencode') and e.func is pr]
     ctx.floor('C16.R4', 'urlencode() of the query', len(u))
